@@ -435,6 +435,18 @@ def standin_devices(tier, seed):
                 variadic = isinstance(g, (cirq.MeasurementGate, cirq.WaitGate))
                 want = (op in gs) and a in gq and b in gq and (variadic or frozenset((a, b)) in pairset)
                 _accept(R, "GridDevice", dev, op, want)
+        # operations given as sub-circuits: accepted exactly when every inner operation is (an uncoupled pair inside a wider sub-circuit included)
+        pxz = cirq.PhasedXZGate(x_exponent=0.3, z_exponent=0.2, axis_phase_exponent=0.1)
+        for inner, want in (([cirq.CZ(gq[0], gq[1]), pxz(gq[3])], True), ([cirq.CZ(gq[0], gq[1])], True), ([cirq.CZ(gq[1], gq[2])], False), ([cirq.CZ(gq[0], off)], False), ([cirq.CNOT(gq[0], gq[1])], False)):
+            R.cases += 1
+            _accept(R, "GridDevice", dev, cirq.CircuitOperation(cirq.FrozenCircuit(inner)), want)
+        R.cases += 1
+        wide = cirq.CircuitOperation(cirq.FrozenCircuit(cirq.CZ(gq[1], gq[2]), pxz(gq[0])))   # CZ on an uncoupled pair next to a third qubit
+        try:
+            dev.validate_operation(wide)
+            R.bad("GridDevice.validate_operation accepts a sub-circuit holding a two-qubit gate on an uncoupled pair", device="GridDevice", operation=wide)
+        except ValueError:
+            pass
         ok_c = cirq.Circuit(cirq.CZ(gq[0], gq[1]), cirq.PhasedXZGate(x_exponent=0.3, z_exponent=0.2, axis_phase_exponent=0.1)(gq[3]), cirq.measure(*gq, key="m"))
         def op_ok(op):
             variadic = isinstance(op.gate, (cirq.MeasurementGate, cirq.WaitGate))
